@@ -132,6 +132,15 @@ CLAIMED["C18"] = ("Proof: main.rs's argument split equals the specification (bef
     "Trusted: Coq kernel; header generator; harness/bindgen and the real binary with stub executables; gcc/g++; translator bindgentables.py. Not modelled: the regular expressions "
     "(block-level abstraction validated by the runs), compiler acceptance (empirical), `--output=X`/`-oX` spellings (outside the documented form).",
     "Coq proof over models of the argument split and of block-level processing + multi-process differential runs of the real tool + compiler acceptance")
+CLAIMED["C05"] = ("Proof (partial, logical routing model): which module carries an operation out cannot influence what it computes; any two-module history has the results of the "
+    "same history run inside one module; every release is carried out by the module that owns the block; at the end nothing is alive in either module. Tie/monitor: the model's "
+    "histories are run on REAL module pairs — one source (harness/xmod) compiled twice, host binary and dlopen'ed cdylib, by different compiler versions (stable 1.95, nightly 1.97 "
+    "with -Zrandomize-layout, 1.98.1), optimisation levels and layout seeds, each with its own tagging global allocator and live-instance counters — exchanging contexts, objects, "
+    "groups, vectors, slices, callbacks and iterators; results are compared with the model and with the single-module reference run; foreign frees, unknown frees, size mismatches, "
+    "leaks and surviving instances/context tokens are counted per module.", "5.C05",
+    "Trusted: Coq kernel; harness/xmod (API, tagging allocator, interpreter); the toolchains installed here. Not proved: that two compilers agree on the layout of the exchanged "
+    "#[repr(C)] types and that no allocation crosses modules at run time — observed on the pairs built (quick: 1 pair, thorough: 6 pairs).",
+    "Coq proof over a two-module routing model + differential runs on separately compiled host/plugin pairs with tagging allocators")
 PENDING = "not yet built in this round (planned, see DESIGN.md section 5); not claimed until its theorem, tie and monitor exist"
 NA = {}
 
